@@ -156,6 +156,7 @@ type c08Result struct {
 	inc              []string
 	panicMsg         string
 	render           string // ok | err | panic:<msg> | "" (nothing to render)
+	ints             string // same | differ:… | "" : integers held by the model vs integers written in the text
 	dur              time.Duration
 	alloc            uint64
 }
@@ -216,6 +217,7 @@ func c08Parse(ctx *frontend.Context, text string) (res c08Result) {
 		} else {
 			res.cls = "ok"
 		}
+		res.ints = intLiteralCheck(strings.TrimSpace(text), model)
 		// an accepted model must be renderable: format.RegularQuery may report an error, it must not panic
 		res.render = "ok"
 		func() {
@@ -461,8 +463,12 @@ func (r *c08Runner) Step(t []string, raw string) string {
 	if render == "" {
 		render = "-"
 	}
-	return fmt.Sprintf("n=%s/%d d=%s/%d o=%s/%d render=%s raw=%d nsyn=%d nother=%d nunsup=[%s] dsyn=%d dother=%d dfilt=%d dunsup=[%s] inc=[%s] slow=%d trace=%s tree=%s",
-		n.cls, n.isNil, d.cls, d.isNil, o.cls, o.isNil, render, rawErrs, n.syn, n.other, strings.Join(n.unsup, ","), d.syn, d.other, d.filt, strings.Join(d.unsup, ","),
+	ints := n.ints
+	if ints == "" {
+		ints = "-"
+	}
+	return fmt.Sprintf("n=%s/%d d=%s/%d o=%s/%d render=%s ints=%s raw=%d nsyn=%d nother=%d nunsup=[%s] dsyn=%d dother=%d dfilt=%d dunsup=[%s] inc=[%s] slow=%d trace=%s tree=%s",
+		n.cls, n.isNil, d.cls, d.isNil, o.cls, o.isNil, render, ints, rawErrs, n.syn, n.other, strings.Join(n.unsup, ","), d.syn, d.other, d.filt, strings.Join(d.unsup, ","),
 		strings.Join(n.inc, ","), slow, trace, tree)
 }
 
